@@ -327,6 +327,22 @@ pub fn stable_table(hs: &HtSpace, p: &P, input_mask: u64) -> (Space, Table) {
 }
 
 /// Documented applicability analyses (for C11), from the manual's definitions.
+/// (symbol, arity) of every atom that heads a rule, basic or choice - read off the rules directly, not
+/// through anthem's `Program::head_predicates`
+pub fn head_predicates(prog: &asp::Program) -> Vec<(String, usize)> {
+    let mut out: Vec<(String, usize)> = vec![];
+    for r in &prog.rules {
+        let k = match &r.head {
+            asp::Head::Basic(a) | asp::Head::Choice(a) => (a.predicate_symbol.clone(), a.terms.len()),
+            asp::Head::Falsity => continue,
+        };
+        if !out.contains(&k) {
+            out.push(k);
+        }
+    }
+    out
+}
+
 pub fn positive_dependency_cyclic(prog: &asp::Program) -> bool {
     // edge head predicate -> predicates occurring unnegated in the body
     let mut edges: Vec<((String, usize), (String, usize))> = vec![];
